@@ -163,7 +163,9 @@ func (s *LinearState) Add(ctx *Context, id string, x Map) (string, error) {
 		return id, err
 	}
 
-	bs, err := json.Marshal(&x)
+	// Store what was prepared (with the absolute 'expires'), not
+	// the caller's map (which may have a relative 'ttl').
+	bs, err := json.Marshal(&m)
 	if err != nil {
 		return id, err
 	}
